@@ -1,6 +1,6 @@
 use core::cell::UnsafeCell;
 use core::num::NonZeroUsize;
-use core::sync::atomic::Ordering::{Acquire, Release};
+use core::sync::atomic::Ordering::{AcqRel, Acquire, Relaxed, Release};
 use core::sync::atomic::{AtomicBool, AtomicUsize};
 
 #[cfg(any(feature = "async", doc))]
@@ -41,6 +41,7 @@ pub struct ConcurrentMutRingBuf<S: Storage> {
     prod_alive: AtomicBool,
     work_alive: AtomicBool,
     cons_alive: AtomicBool,
+    alive_iters: AtomicUsize,
 }
 
 impl<S: Storage<Item = T>, T> MutRB for ConcurrentMutRingBuf<S> {
@@ -131,7 +132,8 @@ impl<S: Storage<Item = T>, T> ConcurrentMutRingBuf<S> {
 
             prod_alive: AtomicBool::default(),
             work_alive: AtomicBool::default(),
-            cons_alive: AtomicBool::default()
+            cons_alive: AtomicBool::default(),
+            alive_iters: AtomicUsize::new(0)
         }
     }
 }
@@ -180,15 +182,22 @@ impl<S: Storage> IterManager for ConcurrentMutRingBuf<S> {
     }
 
     fn set_prod_alive(&self, alive: bool) {
+        if alive { self.alive_iters.fetch_add(1, Relaxed); }
         self.prod_alive.store(alive, Release);
     }
 
     fn set_work_alive(&self, alive: bool) {
+        if alive { self.alive_iters.fetch_add(1, Relaxed); }
         self.work_alive.store(alive, Release);
     }
 
     fn set_cons_alive(&self, alive: bool) {
+        if alive { self.alive_iters.fetch_add(1, Relaxed); }
         self.cons_alive.store(alive, Release);
+    }
+
+    fn release_iter(&self) -> bool {
+        self.alive_iters.fetch_sub(1, AcqRel) == 1
     }
 }
 
